@@ -111,7 +111,12 @@ class C19(Prop):
                 case["lines"][0] += " " + rng.choice(["parallel", "conditional", "amplifying", "loud", "loud"])
             elif r0 < 0.3:
                 # an on_stage_complete observer (returns, or raises at one stage / always)
-                case["lines"].insert(1, "observer " + rng.choice(["ok", "always", f"at:{rng.randrange(k)}", f"at:{rng.randrange(k)}"]))
+                case["lines"].insert(1, "observer " + rng.choice(["ok", "always", f"at:{rng.randrange(k)}", f"at:{rng.randrange(k)}",
+                                                                  f"nth:{rng.randint(1, 4)}"]))
+                if rng.random() < 0.5:
+                    # the observer stays installed over more runs (a stateful observer fails in a later run), is replaced or removed
+                    case["lines"] += [rng.choice(["run 1", "run 2", "run prev", f"observer {rng.choice(['none', 'always', 'nth:1'])}"]),
+                                      f"run {rng.choice([1, 2, 7])}", "hist 2", "stats"]
                 yield case
                 continue
             elif r0 < 0.4:
@@ -608,6 +613,8 @@ class C19(Prop):
                     k = t[1]
 
                     def mkobs(k=k):
+                        calls = [0]
+
                         def ob(stage_result):
                             cands = [j for j, d in enumerate(cur) if d["name"] == stage_result.stage_name]
                             if len(cands) > 1:
@@ -615,10 +622,13 @@ class C19(Prop):
                                 lastp = next((int(e[1:].split(":")[0]) for e in reversed(log) if e.startswith("p")), -1)
                                 cands = [lastp] if lastp in cands else cands
                             seen.append(cands[0] if cands else -1)
+                            log.append(f"o{seen[-1]}")      # the notification, in its place among the callbacks
                             # position of the stage the result belongs to = number of results recorded so far is not
                             # available here; use the stage's current position by name among the live descriptors
                             pos = seen[-1]
-                            if k == "always" or (k.startswith("at:") and pos == int(k[3:])):
+                            calls[0] += 1
+                            if k == "always" or (k.startswith("at:") and pos == int(k[3:])) or \
+                                    (k.startswith("nth:") and calls[0] == int(k[4:])):     # nth: the k-th notification of its life
                                 raise fault("raise0" if made[0] % 2 else "raise", "observer")
                         return ob
                     casc.on_stage_complete = None if k == "none" else mkobs()
@@ -929,7 +939,7 @@ class C19(Prop):
                                   out.append(Violation("processor_only_after_true_checkpoint", f"{want} right before {ev}",
                                                        f"log={log}", idx))
                   # 2. halt: nothing after a blocked / failed stage
-                  stage_of = lambda e: int(e.lstrip("cpe").split(":")[0])
+                  stage_of = lambda e: int(e.lstrip("cpeo").split(":")[0])
                   if halt:
                       for r_ in res:
                           i = int(r_.split(":")[0][:-1])
